@@ -46,6 +46,7 @@ def run_rules(mod, chk):
         generic.subscriptions_rearmed(chk)
         generic.memoised_functions(chk)
         generic.config_not_mutated(chk)
+        generic.class_state_not_shared(chk)
     chk.repo.on_func = None
     return chk
 
